@@ -10,14 +10,19 @@ MANIFEST = dict(
     level="proof",
     text=("Lean 4 theorems over executable mechanism models of iwhmap (buckets, step growth, rehash up/down, LRU list and eviction "
           "loop), iwulist/iwlist (window arithmetic, growth/shrink, bounds-instrumented memmove), the sorted-array binary search, the "
-          "AVL tree (rotation cases of insert and remove, lookup_bounds) and the ring buffer: each refines its plain reference "
-          "(association list + recency list, List, sorted list, BST set, last-n) for all call sequences, with bucket/array bounds and "
-          "free-exactly-once as invariants; the models (plus iwxstr and iwpool models) are tied to the code by differential runs of "
+          "AVL tree (rotation cases of insert and remove, lookup_bounds), the ring buffer (put/back/clear with the iterator loop), iwxstr "
+          "statement by statement (buffer cells, memmove, terminator stores, the 1024-byte vsnprintf buffer switch of the print functions) and "
+          "iwpool (bump allocation, the split_string scan with its trimming loops, child pools and user data): each refines its plain reference "
+          "(association list + recency list, List, sorted permutation, BST set, two-list ring, byte list, List.splitOnP) for all call sequences, "
+          "with bucket/array/buffer bounds as invariants, and one global theorem freed_exactly_once (multiset of elements given to the free "
+          "callbacks = multiset of owned elements inserted and not handed back, over any history ending in destroy, for hash map, iwlist, xstr "
+          "and pool user data, child pools); the models are tied to the code by differential runs of "
           "random call sequences (colliding hashes, eviction, threshold crossings) against the compiled Lean definitions, an independent "
           "python reference as oracle, a logged free callback, a heap balance at destroy and ASan"),
     note=("trusted: Lean kernel, translator, harness/generator, gcc+ASan/UBSan; modelled not verified: the C control flow of the functions "
           "named; pointers are abstracted (keys/values are ids, the LRU list is a list of keys), allocation failure paths are not modelled; "
-          "iwxstr and iwpool are tied and oracle-checked but carry only small lemmas; the check models the tree with the C18 fix commits"),
+          "sort_r (libc qsort_r) and the formatting done by vsnprintf are not modelled: the sort result is pinned down by uniqueness of the sorted "
+          "permutation, the print functions are proved for every formatted output; strings contain no NUL; the check models the tree with the C18 fix commits"),
     technique="Lean 4 proof over executable model + differential correspondence (C harness vs compiled Lean driver) + python reference oracle")
 MODULE = "IwModel.Props.C18"
 THEOREMS = ["IwModel.C18." + n for n in (
@@ -30,7 +35,7 @@ THEOREMS = ["IwModel.C18." + n for n in (
     # round 3 (c18rest): ring back/peek, sort, statement-level xstr incl. printf buffer switch, pool split / children, ownership
     "ring_refines_ref", "ring_peek_newest", "ring_back_spec",
     "ulist_sort_sorted_perm", "plist_sort_sorted_perm", "sort_result_unique",
-    "xstr_mem_refines", "xstr_mem_run", "xstr_printf_exact",
+    "xstr_mem_refines", "xstr_mem_run", "xstr_printf_exact", "xstr_wrap_clone_spec",
     "pool_split_reference", "pool_trim_rule", "pool_printf_exact", "pool_children_ownership",
     "hmap_freed_exactly_once", "plist_freed_exactly_once", "freed_exactly_once",
 )]
@@ -958,7 +963,9 @@ def run(ctx):
                        "that cross the 64/128/256 bucket and the 32-cell list thresholds; lists with edits at both ends; AVL with sorted and "
                        "random insertions; ring, xstr, pool); every op line is checked against a python reference; distinct = distinct op text")
     ctx.assumptions += ["malloc/realloc never fail (failure paths of the containers are not exercised)",
-                        "iwrb_back on a wrapped ring and iwxstr_set_size beyond the current size are outside the reference (model-compared only / not generated)",
+                        "iwxstr_set_size beyond the current size is not generated (the new bytes are uninitialised)",
+                        "iwrb_create(usize, 0) is not generated (the first put overflows, documented quirk); ring length >= 1",
+                        "strings handed to iwpool_split_string / printf contain no NUL byte",
                         "hash map keys: cmp_fn(a,b)==0 iff the keys are equal; string keys contain no NUL"]
     ctx.translate()
     ok, drv_ok = ctx.prove(MODULE, THEOREMS)
